@@ -212,15 +212,25 @@ class Unit:
         if 'Copy' in ds:
             keep.append('Copy')
         clone_manual = False
+        clone_assumed = False
         if 'Clone' in ds:
             if 'Copy' in ds:
                 clone_manual = True
             else:
-                keep.append('Clone')
+                clone_assumed = True
         V.append(('#[derive(%s)]\n' % ', '.join(keep) if keep else '') + decl)
         if clone_manual:
             V.append('impl%s Clone for %s%s%s { fn clone(&self) -> (r: Self) ensures r == *self { *self } }' % (gen, st.name, args, where))
             self.rule('E2.clone_of_copy')
+        if clone_assumed:
+            # Verus attaches no specification to a derived Clone of a non-Copy type: the derive's documented expansion
+            # (field-wise clone) is emitted with the assumed postcondition `r == *self` (trusted base: derived Clone)
+            if st.tuple:
+                bodyc = 'Self(' + ', '.join('self.%s.clone()' % f.name for f in st.fields) + ')'
+            else:
+                bodyc = 'Self { ' + ', '.join('%s: self.%s.clone()' % (f.name, f.name) for f in st.fields) + ' }'
+            V.append('impl%s Clone for %s%s%s { #[verifier::external_body] fn clone(&self) -> (r: Self) ensures r == *self { %s } }' % (gen, st.name, args, where, bodyc))
+            self.rule('E2.clone_derived_assumed')
         if 'PartialEq' in ds:
             cmpf = [f for f in st.fields if f.ty != '()' and not f.ty.startswith('PhantomData')]
             has_eq = True
@@ -456,8 +466,8 @@ class Unit:
         if c and c.entry:
             entry = '\n'.join(c.entry)
         gen_c = re.search(r'\bC\b', (f.generics or '')) or True
-        if self.cfg.get('auto_algebra', True):
-            entry = 'proof { crate::vspec::use_algebra::<C>(); }\n' + entry
+        if self.cfg.get('auto_algebra', True) and not (c and c.nohints):
+            entry = 'proof { crate::vspec::use_algebra::<C>(); crate::vspec::use_id_order::<C>(); }\n' + entry
         if entry:
             t = '{\n' + entry + '\n' + t[1:]
         return t
